@@ -5,7 +5,9 @@ C2S : every compiled network of the corpus (emphasis on cascades / rolling buffe
       from the decoded registers of the *output file*; the expected writer tag (storage identity, logical
       offset) comes from the high-level command list observed in the compiling process (harness/logical.py).
       NpuTagTrace.tla executes the stream in program order over tagged memory and decides NoUninitRead,
-      ReadsIntended, DmaCopiesDefined, DmaCopiesIntended.
+      ReadsIntended, DmaCopiesDefined, DmaCopiesIntended, and OutputsDefined: when a stream ends, every byte of the custom
+      operator's results - at the arena offsets the output file publishes - has been defined by it.  That discharges the
+      assumption "inputs of an NPU subgraph are defined on entry" for tensors produced by an earlier NPU subgraph.
 MC  : the producer/consumer interleaving that makes rolling buffers safe is model-checked in Cascade.tla (see C10).
 """
 import collections
@@ -53,8 +55,9 @@ def merge(segs):
     return out
 
 
-def stream_trace(tid, ops, lg, accel):
-    """events of NpuTagTrace for one stream; ops = decoded operations, lg = logical subgraph description"""
+def stream_trace(tid, ops, lg, accel, outs=()):
+    """events of NpuTagTrace for one stream; ops = decoded operations, lg = logical subgraph description, outs = (name, arena
+    offset, size) of the custom operator's results as the output file publishes them (region 1 = the tensor arena)"""
     cmds = lg["cmds"]
     if len(ops) != len(cmds):
         raise MachineryError("pairing: %d operations in the stream, %d high-level commands" % (len(ops), len(cmds)))
@@ -153,6 +156,9 @@ def stream_trace(tid, ops, lg, accel):
                 mark(s[1], s[2], s[3])
         elif p["src"][:2] == p["dst"][:2]:        # elided copy: no DMA registers, its extent delimits cells like an access
             mark(*p["src"])
+    outs = [(nm, off, n) for (nm, off, n) in outs if n > 0]
+    for (_, off, n) in outs:
+        mark(1, off, n)
     cellrange, ncell = cells.endpoint_cells(pts, copies)
 
     def cl(r, a, n):
@@ -169,6 +175,8 @@ def stream_trace(tid, ops, lg, accel):
                           "rd": [{"w": s[0].rstrip("~"), "cells": cl(s[1], s[2], s[3]), "sid": s[4], "delta": s[5],
                                  "sidonly": s[0].endswith("~")} for s in p["rd"]],
                           "wr": [{"cells": cl(s[1], s[2], s[3]), "sid": s[4], "delta": s[5]} for s in p["wr"]]})
+    if outs:
+        lines.append({"t": tid, "e": "Out", "i": len(cmds), "outs": [{"w": "out:" + nm, "cells": cl(1, off, n)} for (nm, off, n) in outs]})
     lines.append({"t": tid, "e": "Stop"})
     return lines, ncell, mech
 
@@ -223,6 +231,9 @@ def jobs_for(tier, sd):
     jobs += corpus.draw(n, sd, families=fams, dedicated_bias=0.5)
     if corpus.ops_families():     # operator-coverage families (memory-only operators, mixed precision, fused activations, fall-backs)
         jobs += corpus.draw(10 if tier == "quick" else 250, sd + 3, families=corpus.ops_families(), dedicated_bias=0.5)
+    # graph shapes (corpus_shapes.py); emphasis: reshapes between NPU operators, non-square transposes, a table reused across
+    # operators without a table on 16-bank parts, tensors read inside and outside their NPU subgraph
+    jobs += corpus.shape_jobs(sd, tier, extra=["reshape_between"] * 2 + ["tr_hw"] * 2 + ["lut_gap"] * 3 + ["skip_out"] * 3, thorough=25)
     return jobs
 
 
@@ -230,14 +241,18 @@ def analyse_job(j, x):
     """-> list of (events builder inputs) or raises MachineryError"""
     if "extract" not in x:
         raise MachineryError("no logical command list for %s: %s" % (j["family"], x.get("extract_error")))
-    _, ss = streams.analyse(x["out_bytes"], j["opts"]["accel"])
+    model, ss = streams.analyse(x["out_bytes"], j["opts"]["accel"])
     lgs = x["extract"]
     if len(lgs) != len(ss):
         raise MachineryError("pairing of subgraphs failed for " + j["family"])
     out = []
+    off = (model.get("offline") or {}).get("offsets") or []
     for s, lg in zip(ss, lgs):
         if list(s["payload"]["words"]) != lg["words"]:
             raise MachineryError("command stream of the output file differs from the generated one")
+        # results of the custom operator at the arena offsets the output file publishes (OutputsDefined)
+        s["outs"] = [(model["tensors"][i]["name"], off[i], model["tensors"][i]["size"]) for i in s["io"]["outputs"]
+                     if 0 <= i < len(off) and off[i] >= 0]
         out.append((s, lg))
     return out
 
@@ -257,7 +272,7 @@ def main(tier):
         for s, lg in analyse_job(j, x):
             tid += 1
             run.evaluated()
-            lines, ncell, mech = stream_trace(tid, s["ops"], lg, s["accel"])
+            lines, ncell, mech = stream_trace(tid, s["ops"], lg, s["accel"], s.get("outs", ()))
             events += lines
             lutev += lut_events(tid, s["ops"], lg, s["accel"])
             index[tid] = (j, s, lg)
@@ -277,6 +292,12 @@ def main(tier):
         run.add_trace_run("NpuTagTrace", res, len(sel))
         for v in viol:
             j, s, lg = index[v[0]]
+            if v[1] == "OutputsDefined":
+                run.violation("OutputsDefined|%s" % j["family"].split(":")[0],
+                              "OutputsDefined: result '%s' of the ethos-u operator has bytes no operation of its stream defined, at the arena "
+                              "offset the output file publishes (%s with %s)" % (v[3][4:], j["family"], j["opts"]),
+                              {"net": j["net"], "opts": j["opts"], "violated": v[1:], "outs": s.get("outs")})
+                continue
             cmd = lg["cmds"][v[2]] if v[2] < len(lg["cmds"]) else {}
             key = "%s|%s|%s|%s" % (v[1], v[3], cmd.get("op", cmd.get("type")), j["family"].split(":")[0])
             f = cmd.get("ifm") if v[3] == "ifm" else None
@@ -310,6 +331,17 @@ def main(tier):
     if not any(v[1] == "ReadsIntended" for v in viol):
         raise MachineryError("negative control failed: shifted read accepted")
     run.cov["negative_control"] = "read with logical offset shifted by one byte rejected"
+    # negative control of OutputsDefined: the same stream with every operation removed leaves its results undefined
+    ctrl = next((t for t in ids if any(e["t"] == t and e["e"] == "Out" for e in events)), None)
+    if ctrl is None:
+        raise MachineryError("no stream with a published result: OutputsDefined was never evaluated")
+    evs = [json.loads(json.dumps(e)) for e in events if e["t"] == ctrl and e["e"] in ("Hdr", "Out", "Stop")]
+    evs[0]["init"] = []
+    _, viol = tlc.validate_traces("NpuTagTrace", "NpuTagTrace.cfg", evs)
+    if not any(v[1] == "OutputsDefined" for v in viol):
+        raise MachineryError("negative control failed: results of a stream without operations accepted as defined")
+    run.cov["negative_control_outputs"] = "results of a stream whose operations were removed rejected (OutputsDefined)"
+    run.cov["streams_with_published_results"] = sum(1 for e in events if e["e"] == "Out")
     run.cov["mechanisms"] = dict(mech_count)
     run.cov["rule"] = ("one trace per ethos-u custom operator of each compiled corpus network; non-trivial = the stream uses a "
                        "rolling buffer, a DMA-filled weight buffer, a lookup table or a feature-map DMA")
@@ -324,7 +356,7 @@ def replay(path):
     x = vela_run.compile_many([j], extractor=logical.extract)[0]
     bad = 0
     for t, (s, lg) in enumerate(analyse_job(j, x), 1):
-        lines, _, _ = stream_trace(t, s["ops"], lg, s["accel"])
+        lines, _, _ = stream_trace(t, s["ops"], lg, s["accel"], s.get("outs", ()))
         _, viol = tlc.validate_traces("NpuTagTrace", "NpuTagTrace.cfg", lines)
         for v in viol:
             print("replay:", v)
